@@ -196,11 +196,18 @@ func checkC09(c *Ctx) {
 				}
 			}
 			for pi := range g.Prods {
-				switch rng.Intn(6) {
+				switch rng.Intn(7) {
 				case 0:
 					g.Prods[pi].Action = "\"%d {{ }} */ /* \\\" \\\\ é 日本 $x\", nil"
 				case 1:
 					g.Prods[pi].Action = "`raw %s {{.}} */`, nil"
+				case 3:
+					// an action is an expression list; what it begins with is no keyword just because
+					// it begins like one
+					if len(g.Prods[pi].Body) > 0 {
+						g.Header = "\nfunc returnIt(x interface{}) (interface{}, error) { return x, nil }\nfunc nilOr(x interface{}) (interface{}, error) { return x, nil }\nfunc errorf(x interface{}) (interface{}, error) { return x, nil }\n"
+						g.Prods[pi].Action = []string{"returnIt($0)", "nilOr($0)", "errorf($0)"}[rng.Intn(3)]
+					}
 				case 2:
 					// attributes between rune literals of quotes: where a string seems to begin
 					// is for the Go scanner to say
